@@ -69,6 +69,22 @@ def tolerantD2 (a b x : α) : α :=
     (b * ((k 1 + Scalar.exp ((x - a) / b)) * (k 1 + Scalar.exp ((x - a) / b))))
 def tolerant (a b : α) : α → Option α := guarded (tolerantV a b)
 
+/-! ### Tolerant as the code computes it: `b * softplus((x-a)/b, threshold=50) - offset`
+
+`torch.nn.functional.softplus(z, beta=1, threshold=50)` is `z` if `z > 50` else `log1p(exp z)`; its backward is `1` resp.
+`exp z / (exp z + 1)`, its double backward `0` resp. the derivative of that quotient. `tolerantV/D1/D2` above are the
+*documented* closed form; `Proofs/Props/C09.lean` proves that the two coincide on the property's domain `a/|b| ≤ 50`,
+`x ≥ 0` (the branch is never taken there) and bounds the difference by `|b|·e⁻⁵⁰` outside. -/
+def softplus50 (z : α) : α := if Scalar.lt (k 50) z then z else Scalar.log (k 1 + Scalar.exp z)
+def softplus50D1 (z : α) : α := if Scalar.lt (k 50) z then k 1 else Scalar.exp z / (k 1 + Scalar.exp z)
+def softplus50D2 (z : α) : α :=
+  if Scalar.lt (k 50) z then k 0 else Scalar.exp z / ((k 1 + Scalar.exp z) * (k 1 + Scalar.exp z))
+def tolerantC (a b x : α) : α :=
+  b * softplus50 ((x - a) / b) - b * Scalar.log (k 1 + Scalar.exp ((-a) / b))
+def tolerantCD1 (a b x : α) : α := softplus50D1 ((x - a) / b)
+def tolerantCD2 (a b x : α) : α := softplus50D2 ((x - a) / b) / b
+def tolerantCode (a b : α) : α → Option α := guarded (tolerantC a b)
+
 /-! ### Scale -/
 def scaleV (δ x : α) : α := δ * x
 def scaleD1 (δ _x : α) : α := δ
@@ -99,7 +115,7 @@ def val (s : Spec α) (x : α) : α :=
   | .cauchy => cauchyV s.p1 x
   | .softLOne => softLOneV s.p1 x
   | .arctan => arctanV s.p1 x
-  | .tolerant => tolerantV s.p1 s.p2 x
+  | .tolerant => tolerantC s.p1 s.p2 x
   | .scale => scaleV s.p1 x
   | .poly => polyV s.p1 s.p2 s.p3 x
 def d1 (s : Spec α) (x : α) : α :=
@@ -109,7 +125,7 @@ def d1 (s : Spec α) (x : α) : α :=
   | .cauchy => cauchyD1 s.p1 x
   | .softLOne => softLOneD1 s.p1 x
   | .arctan => arctanD1 s.p1 x
-  | .tolerant => tolerantD1 s.p1 s.p2 x
+  | .tolerant => tolerantCD1 s.p1 s.p2 x
   | .scale => scaleD1 s.p1 x
   | .poly => polyD1 s.p1 s.p2 s.p3 x
 def d2 (s : Spec α) (x : α) : α :=
@@ -119,7 +135,7 @@ def d2 (s : Spec α) (x : α) : α :=
   | .cauchy => cauchyD2 s.p1 x
   | .softLOne => softLOneD2 s.p1 x
   | .arctan => arctanD2 s.p1 x
-  | .tolerant => tolerantD2 s.p1 s.p2 x
+  | .tolerant => tolerantCD2 s.p1 s.p2 x
   | .scale => scaleD2 s.p1 x
   | .poly => polyD2 s.p1 s.p2 s.p3 x
 /-- does `forward` assert `input >= 0`? (all seven built-in kernels do; the user family does not) -/
@@ -129,9 +145,23 @@ def asserts (s : Spec α) : Bool :=
   | _ => true
 end Spec
 
+/-- the constructor's assertions: `delta > 0` (Huber, PseudoHuber, Cauchy, SoftLOne), none for Arctan, `a > 0 ∧ b < 0`
+(Tolerant), `0 < delta ≤ 1` (Scale); the user family has no constructor check. `false` = `AssertionError`. -/
+def Spec.ctorOk (s : Spec α) : Bool :=
+  match s.kind with
+  | .huber | .pseudoHuber | .cauchy | .softLOne => Scalar.lt (k 0) s.p1
+  | .arctan => true
+  | .tolerant => Scalar.lt (k 0) s.p1 && Scalar.lt s.p2 (k 0)
+  | .scale => Scalar.lt (k 0) s.p1 && Scalar.le s.p1 (k 1)
+  | .poly => true
+
 /-- `kernel(input)` on a whole tensor (flattened): one assertion over *all* elements, then the
 element-wise map. `none` = `AssertionError`. -/
 def onTensor (s : Spec α) (xs : List α) : Option (List α) :=
   if s.asserts && !(xs.all ok) then none else some (xs.map s.val)
+
+/-- `Kernel(params)(input)`: construction, then the call; `none` = one of the two assertions fires -/
+def Spec.construct (s : Spec α) (xs : List α) : Option (List α) :=
+  if s.ctorOk then onTensor s xs else none
 
 end PP.Kernel
